@@ -26,6 +26,7 @@ type Obligation struct {
 	fc      *FuncCtx
 	Result  *SolveResult
 	MustSat bool // cover obligation: expected satisfiable
+	Obs     []namedTerm // what a replay on the real code can observe at this point (results, scanner state)
 }
 
 type FuncCtx struct {
@@ -57,6 +58,8 @@ type FuncCtx struct {
 	cutAt      map[ssa.Instruction]*CutSpec
 	cutDone    map[*CutSpec]bool
 	loopDone   map[*LoopInfo]bool
+	replay     *replayInfo
+	curObs     []namedTerm
 }
 
 type assignLoc struct {
@@ -239,7 +242,7 @@ func (fc *FuncCtx) emit(st *State, kind, site, clause string, tags []string, goa
 		name += "@" + site
 	}
 	ob := &Obligation{Name: name, Func: fc.name, Kind: kind, Tags: pickTags(tags, fc.tags), Clause: clause,
-		Goal: goal, PC: append([]*Term(nil), st.pc...), Path: strings.Join(st.path, " "), Site: site, fc: fc}
+		Goal: goal, PC: append([]*Term(nil), st.pc...), Path: strings.Join(st.path, " "), Site: site, fc: fc, Obs: fc.curObs}
 	fc.obs = append(fc.obs, ob)
 }
 
@@ -379,6 +382,7 @@ func (u *Universe) verifyFunction(fn *ssa.Function, c *Contract) (fc *FuncCtx) {
 		t := env.evalBool(r.E)
 		st.assume(t)
 	}
+	fc.planReplay(st)
 	// dispatch clauses on parameters are implicit preconditions
 	for _, pn := range sortedKeys(c.Dispatch) {
 		if pv, ok := fc.params[pn]; ok && pv.T.Sort == SFn {
